@@ -120,6 +120,29 @@ fn c06_model(rng: &mut Rng, i: u64) -> (Sprite, PaletteProgram, &'static str) {
             sp.cels.insert((1, 0), CelM { x: 0, y: 0, opacity: 255, content: CelContentM::Link(0), ud: None });
             (sp, PaletteProgram::Auto, "indexed-transparent-sweep")
         }
+        3 if i % 20 == 3 => {
+            // a linked cel whose target is a tilemap cel (legal: Aseprite links cels on tilemap layers too)
+            let mut cfg = GenCfg::small();
+            cfg.attrs = false;
+            cfg.extremes = false;
+            cfg.links = false;
+            cfg.max_layers = 4;
+            cfg.max_frames = 3;
+            for _ in 0..60 {
+                let (mut sp, pp) = gen::gen_sprite(rng, &cfg);
+                let tm: Vec<(u16, u16)> = sp.cels.iter().filter(|(_, c)| matches!(c.content, CelContentM::Tilemap { .. })).map(|(k, _)| *k).collect();
+                if let Some((f, l)) = tm.first().cloned() {
+                    // put the link into a new last frame
+                    let nf = sp.durations.len() as u16;
+                    sp.durations.push(123);
+                    let t = sp.cels[&(f, l)].clone();
+                    sp.cels.insert((nf, l), CelM { x: t.x, y: t.y, opacity: t.opacity, content: CelContentM::Link(f), ud: None });
+                    return (sp, pp, "link-to-tilemap");
+                }
+            }
+            let (sp, pp) = gen::gen_sprite(rng, &cfg);
+            (sp, pp, "random")
+        }
         _ => {
             let mut cfg = GenCfg::small();
             cfg.attrs = false;
